@@ -41,13 +41,15 @@ int main(int argc, char** argv) {
             auto ct = std::make_shared<cell_type_parameters>();
             ct->global_type_id_ = (short)cc["type"].i();
             face_type_parameters ft; ct->add_face_type(ft); ct->add_face_type(ft); ct->add_face_type(ft);
+            // persistent identifier of the cell: its position in the list, or (case field "ids") something else, as after divisions / removals
+            const unsigned cid = C.has("ids") ? (unsigned)C["ids"][i].i() : (unsigned)i;
             cell_ptr c;
             switch (ct->global_type_id_) {
-                case 0: c = std::make_shared<epithelial_cell>(m.pos, m.tris, (unsigned)i, ct); break;
-                case 1: c = std::make_shared<ecm_cell>(m.pos, m.tris, (unsigned)i, ct); break;
-                case 2: c = std::make_shared<lumen_cell>(m.pos, m.tris, (unsigned)i, ct); break;
-                case 3: c = std::make_shared<nucleus_cell>(m.pos, m.tris, (unsigned)i, ct); break;
-                default: c = std::make_shared<static_cell>(m.pos, m.tris, (unsigned)i, ct); break;
+                case 0: c = std::make_shared<epithelial_cell>(m.pos, m.tris, cid, ct); break;
+                case 1: c = std::make_shared<ecm_cell>(m.pos, m.tris, cid, ct); break;
+                case 2: c = std::make_shared<lumen_cell>(m.pos, m.tris, cid, ct); break;
+                case 3: c = std::make_shared<nucleus_cell>(m.pos, m.tris, cid, ct); break;
+                default: c = std::make_shared<static_cell>(m.pos, m.tris, cid, ct); break;
             }
             c->initialize_cell_properties(true);
             // remeshing operations leave unused node / face slots behind: the writer has to compact them away
